@@ -38,6 +38,10 @@ func (m *evalModel) evalFuncs() []*ssa.Function {
 		out = append(out, f)
 		out = append(out, allAnon(f)...)
 	}
+	for _, h := range m.stepHelpers {
+		out = append(out, h)
+		out = append(out, allAnon(h)...)
+	}
 	return out
 }
 
@@ -114,7 +118,7 @@ func ruleOnce(m *evalModel, r *Report, rule string) {
 			r.bad(rule, m.EVAL, construct, instrPos(pred.Instrs[len(pred.Instrs)-1]), "classified "+k.String()+": a value is fed back into the loop and evaluated a second time")
 		}
 	}
-	r.floor(rule, "evaluating calls and loop continuations", n, 14)
+	r.floor(rule, "evaluating calls and loop continuations", n, 10)
 }
 
 func nz(s, d string) string {
@@ -462,7 +466,7 @@ func ruleScope(m *evalModel, r *Report, rule string) {
 		}
 		r.check(cnt == 1, rule, m.EVAL, "number of scopes created by let", token.NoPos, "exactly one", fmt.Sprintf("%d scopes created", cnt))
 	}
-	r.floor(rule, "scope-carrying call sites, scope switches and binding writes", n, 18)
+	r.floor(rule, "scope-carrying call sites, scope switches and binding writes", n, 12)
 }
 
 // edgeDominatesRegionEntry: block b is executed on every path through the region (it is the region's entry block or dominates ... we
